@@ -21,7 +21,7 @@ func ruleTMPLNEG(c *Ctx) {
 		return
 	}
 	n := 0
-	for _, fn := range []string{"go_parser.go.tmpl"} {
+	for _, fn := range []string{"go_parser.go.tmpl", "ts_parser.go.tmpl", "cc_parser_cc.go.tmpl"} {
 		f := files[fn]
 		if f == nil {
 			c.Lost(rule, fn, "template not found")
